@@ -88,7 +88,7 @@ impl<T> SocksRequest<T> {
         socket.read_exact(&mut buf).await.context("read methods")?;
         let method = auth.select_method(&buf);
         if method.is_none() {
-            socket.write(&[5, 0xff]).await.context("write")?;
+            socket.write_all(&[5, 0xff]).await.context("write")?;
             socket.flush().await.context("flush")?;
             bail!("No auth method in common, client wants: {:?}", buf)
         }
@@ -96,7 +96,7 @@ impl<T> SocksRequest<T> {
         // authentication
         let method = method.unwrap();
         socket
-            .write(&[SOCKS_VER_5, method])
+            .write_all(&[SOCKS_VER_5, method])
             .await
             .context("write")?;
         socket.flush().await.context("flush")?;
@@ -169,12 +169,12 @@ impl<T> SocksRequest<T> {
             _ => unreachable!(),
         };
         socket.write_u16(dport).await.context("dport")?;
-        socket.write(&dst).await.context("dport")?;
+        socket.write_all(&dst).await.context("dport")?;
         let cid = auth.auth_v4(&self.auth).await?;
-        socket.write(cid.as_bytes()).await.context("cid")?;
+        socket.write_all(cid.as_bytes()).await.context("cid")?;
         socket.write_u8(0).await.context("cid")?;
         if let Some(target) = target {
-            socket.write(target).await.context("target")?;
+            socket.write_all(target).await.context("target")?;
             socket.write_u8(0).await.context("target")?;
         }
         Ok(())
@@ -191,7 +191,7 @@ impl<T> SocksRequest<T> {
             .write_u8(methods.len() as u8)
             .await
             .context("auth method")?;
-        socket.write(methods).await.context("auth method")?;
+        socket.write_all(methods).await.context("auth method")?;
         socket.flush().await.context("flush")?;
 
         // authentication
@@ -223,7 +223,7 @@ impl<T> SocksRequest<T> {
             _ => unreachable!(),
         };
         socket.write_u8(t).await.context("type")?;
-        socket.write(&addr).await.context("addr")?;
+        socket.write_all(&addr).await.context("addr")?;
         socket.write_u16(port).await.context("port")?;
         Ok(())
     }
@@ -346,12 +346,12 @@ impl SocksAuthClient<Option<(String, String)>> for PasswordAuth {
                     .write_u8(user.len() as u8)
                     .await
                     .context("auth user")?;
-                socket.write(user.as_bytes()).await.context("auth user")?;
+                socket.write_all(user.as_bytes()).await.context("auth user")?;
                 socket
                     .write_u8(pass.len() as u8)
                     .await
                     .context("auth pass")?;
-                socket.write(pass.as_bytes()).await.context("auth user")?;
+                socket.write_all(pass.as_bytes()).await.context("auth user")?;
                 socket.flush().await.context("auth")?;
                 let _ver = socket.read_u8().await.context("auth result")?;
                 let result = socket.read_u8().await.context("auth result")?;
@@ -451,7 +451,7 @@ impl SocksResponse {
             _ => unreachable!(),
         };
         socket.write_u16(dport).await.context("dport")?;
-        socket.write(&dst).await.context("dport")?;
+        socket.write_all(&dst).await.context("dport")?;
         Ok(())
     }
     pub async fn write_v5<IO: RW>(&self, socket: &mut IO) -> Result<(), Error> {
@@ -472,7 +472,7 @@ impl SocksResponse {
             _ => unreachable!(),
         };
         socket.write_u8(t).await.context("type")?;
-        socket.write(&addr).await.context("addr")?;
+        socket.write_all(&addr).await.context("addr")?;
         socket.write_u16(port).await.context("port")?;
         Ok(())
     }
